@@ -110,7 +110,7 @@ def build(pid="shared"):
     global WORK
     import shutil
     t = time.time()
-    WORK = os.path.join(VERIF, ".work", pid)
+    WORK = os.path.join(VERIF, ".work", pid + os.environ.get("VERIF_WORK_SUFFIX", ""))   # the suffix keeps concurrent runs of one property apart
     shutil.rmtree(WORK, ignore_errors=True)
     os.makedirs(WORK)
     for name in ("go.mod", "go.sum", "pool", "exec", "cmd"):
